@@ -57,6 +57,12 @@ pub fn family() -> Vec<(String, Cfg, bool)> {
     add("syntax error in the second mode", &|c| c.modes[1].pats[0].pat = "b+(".into(), false);
     add("unsupported construct in a lookahead", &|c| c.modes[0].pats[0].la = Some((true, "^b".into())), false);
     add("unknown class", &|c| c.modes[0].pats[1].pat = "\\p{Foo}".into(), false);
+    add("plain fallback with the regex of the guarded first pattern appended", &|c| c.modes[0].pats.push(CPat::new("a", 3)), true);
+    add("guarded pattern (negative lookahead) and its plain fallback", &|c| {
+        c.modes[0].pats[0].la = Some((false, "b".into()));
+        c.modes[0].pats.push(CPat::new("a", 3));
+    }, true);
+    add("one regex twice without lookahead (second can never win)", &|c| c.modes[1].pats.push(CPat::new("b+", 5)), true);
     v.push(("no modes at all".into(), Cfg { modes: vec![] }, true));
     v.push(("one mode without patterns".into(), Cfg { modes: vec![CMode { name: "INITIAL".into(), pats: vec![], transitions: vec![] }] }, true));
     v.push(("unrelated".into(), Cfg::single(vec![CPat::new("c+", 0), CPat::new("[ab]", 1)]), true));
@@ -293,6 +299,58 @@ pub fn run(tier: Tier) -> ! {
             other => viol.add("", || Violation { key: String::new(), summary: format!("add_patterns build failed: {other:?}").chars().take(300).collect(), replay: json!({"calls": ["add_patterns([\"a\",\"b\"]).build()"]}) }),
         }
     }
+    // one long history without any clear: N distinct small configurations are built one after the
+    // other; after every build the first, the middle and the previous one are built again, at every
+    // power of two (+-1) and at the end all of them (forwards, then backwards). A cache with a
+    // capacity, an eviction order or a rehash threshold anywhere below N shows here.
+    let n_long = if tier == Tier::Quick { 1_100usize } else { 70_000 };
+    let long_ins: Vec<String> = vec!["ab".into(), "ba".into(), "".into()];
+    let long_cfg = |i: usize| Cfg { modes: vec![CMode { name: if i % 2 == 0 { "M0".into() } else { "SECOND".into() }, pats: vec![CPat::new("a", i), CPat::new("b", i + 1)], transitions: vec![] }] };
+    let long_want = |i: usize| -> Vec<Vec<(usize, usize, usize)>> { vec![vec![(i, 0, 1), (i + 1, 1, 2)], vec![(i + 1, 0, 1), (i, 1, 2)], vec![]] };
+    let mut long_builds = 0usize;
+    {
+        let _ = catch(cache_clear);
+        let mut check = |i: usize, k: usize, viol: &mut ViolAcc| -> bool {
+            long_builds += 1;
+            let r = catch(|| long_cfg(i).build_cached().map(|sc| (sc.mode_name(0).map(|s| s.to_string()), long_ins.iter().map(|x| sc.find_iter(x).map(|m| (m.token_type(), m.start(), m.end())).collect::<Vec<_>>()).collect::<Vec<_>>())));
+            let want_name = Some(if i % 2 == 0 { "M0".to_string() } else { "SECOND".to_string() });
+            let ok = matches!(&r, Ok(Ok((name, streams))) if *name == want_name && *streams == long_want(i));
+            if !ok {
+                viol.add("", || Violation {
+                    key: String::new(),
+                    summary: format!("long history: after building configurations #0..#{k} (one mode, `a`=>i, `b`=>i+1), build() of #{i} gives {:?}; expected mode name {want_name:?} and token types {i},{}", r.as_ref().map(|x| x.as_ref().map_err(|e| e.to_string())), i + 1).chars().take(500).collect(),
+                    replay: json!({"calls": [format!("build() of configurations #0..#{k} in this order (configuration #i: one mode named M0 (i even) / SECOND (i odd), patterns a=>i, b=>i+1), with re-builds of #0, #k/2, #k-1 after each"), format!("build() of #{i}")], "inputs": long_ins, "expected_token_types": [i, i + 1]}),
+                });
+            }
+            ok
+        };
+        'long: for k in 0..n_long {
+            if !check(k, k, &mut viol) {
+                break;
+            }
+            for j in [0, k / 2, k.saturating_sub(1)] {
+                if !check(j, k, &mut viol) {
+                    break 'long;
+                }
+            }
+            let c = k + 1; // configurations built so far
+            if c >= 15 && (c.is_power_of_two() || (c - 1).is_power_of_two() || (c + 1).is_power_of_two()) && c < 5_000 {
+                for j in 0..=k {
+                    if !check(j, k, &mut viol) {
+                        break 'long;
+                    }
+                }
+            }
+        }
+        if viol.total() == 0 {
+            for j in (0..n_long).chain((0..n_long).rev()) {
+                if !check(j, n_long - 1, &mut viol) {
+                    break;
+                }
+            }
+        }
+    }
+    n_trans += long_builds;
     // (after a panic inside the lock the cache is poisoned and the hook itself panics)
     let _ = catch(cache_clear);
     let n_dis = viol.total();
@@ -310,6 +368,7 @@ pub fn run(tier: Tier) -> ! {
     cov.insert("state_space".into(), json!(format!("all subsets of the {} buildable members of size <= {max_size}{}", good.len(), if tier == Tier::Thorough { " plus the full powerset of the first 9" } else { "" })));
     cov.insert("transitions_where_the_cache_key_set_differs_from_the_model".into(), json!(key_mismatch));
     cov.insert("transitions_where_cached_and_uncached_automata_differ_structurally_(informational)".into(), json!(dump_differs));
+    cov.insert("long_history".into(), json!({"distinct_configurations": n_long, "build_calls": long_builds, "shape": "no clear; after every build the first, middle and previous configuration again; all of them at every power of two +-1 below 5000 and at the end forwards and backwards"}));
     cov.insert("cache_hits".into(), json!(hits));
     cov.insert("cache_misses".into(), json!(misses));
     cov.insert("failing_builds".into(), json!(fails));
